@@ -3,8 +3,8 @@ Bridge for C08: facts regenerated from /repo (CueVerif.Gen.C08) versus the hand 
 (Model/Fmt.lean).  The precedence table and the token numbering are translated definitions;
 `pin_*` are fingerprints of the normalised source of the functions (or single type-switch arms)
 the model transcribes, validated by the correspondence of harness/c08*.go.
-When the fix for the v1 unary-operator merge is applied to cue/format/node.go, the pin of the
-UnaryExpr arm changes: flip `Fmt.v1GuardEnabled` to `true` and update that pin.
+The UnaryExpr arm of exprRaw and cue/format's `unaryOpMergesWithOperand` are pinned at the versions
+of fix ab8529a (`Fmt.v1GuardEnabled = true` models exactly that guard).
 -/
 import CueVerif.Gen.C08
 import CueVerif.Model.Fmt
@@ -69,7 +69,10 @@ theorem pin_parser_parser_parseBinaryExpr : Gen.C08.pin_parser_parser_parseBinar
 theorem pin_parser_parser_parseBinaryExprTail : Gen.C08.pin_parser_parser_parseBinaryExprTail = "cbe964e3f4df2745" := by decide
 theorem pin_parser_parser_parseUnaryExpr : Gen.C08.pin_parser_parser_parseUnaryExpr = "73ff9f45116d3361" := by decide
 theorem pin_format_formatter_exprRaw_case_BinaryExpr : Gen.C08.pin_format_formatter_exprRaw_case_BinaryExpr = "663998a7789358a0" := by decide
-theorem pin_format_formatter_exprRaw_case_UnaryExpr : Gen.C08.pin_format_formatter_exprRaw_case_UnaryExpr = "46a9f754473e65d3" := by decide
+theorem pin_format_formatter_exprRaw_case_UnaryExpr : Gen.C08.pin_format_formatter_exprRaw_case_UnaryExpr = "4d6c2b56986a320a" := by decide
+theorem pin_format_unaryOpMergesWithOperand : Gen.C08.pin_format_unaryOpMergesWithOperand = "e3c22e6733f695f2" := by decide
+/-- cue/format's guard is textually the guard of internal/pretty (same normalised source) -/
+theorem v1_guard_is_v2_guard : Gen.C08.pin_format_unaryOpMergesWithOperand = Gen.C08.pin_pretty_unaryOpMergesWithOperand := by decide
 theorem pin_format_formatter_exprRaw_case_ParenExpr : Gen.C08.pin_format_formatter_exprRaw_case_ParenExpr = "0245dbdb235de0b9" := by decide
 theorem pin_format_formatter_exprRaw_case_Ident : Gen.C08.pin_format_formatter_exprRaw_case_Ident = "42e2a2f6715eeb3a" := by decide
 theorem pin_format_formatter_exprRaw_case_BasicLit : Gen.C08.pin_format_formatter_exprRaw_case_BasicLit = "5a03cd8a6eb9588d" := by decide
